@@ -70,6 +70,8 @@ TRANSLATORS = [
     ('translate_strscan.py', 'StrScanTables', 'strscan', 'Proofs/StrScanSrc.v'),
     ('translate_lexalg.py', 'LexAlgTables', 'lexalg', 'Proofs/LexAlgSrc.v'),
     ('translate_stream.py', 'StreamTables', 'stream', 'Proofs/StreamSrc.v'),
+    ('translate_numfr.py', 'NumFrTables', 'numfr', 'Proofs/NumFrSrc.v'),
+    ('translate_err.py', 'ErrTables', 'err', 'Proofs/ErrSrc.v'),
 ]
 TRANSLATORS = [t for t in TRANSLATORS if os.path.exists(os.path.join(VERIF, 'tools', t[0]))]
 
